@@ -23,6 +23,7 @@ type gen struct {
 }
 
 func (g *gen) pick(xs ...string) string { return xs[g.r.Intn(len(xs))] }
+func (g *gen) pick2(xs ...interface{}) interface{} { return xs[g.r.Intn(len(xs))] }
 func (g *gen) chance(p float64) bool    { return g.r.Float64() < p }
 
 // ---- documents -------------------------------------------------------------
@@ -434,6 +435,29 @@ func (g *gen) program() string {
 		return g.call(2)
 	case "blocks":
 		return g.block(2)
+	case "transform":
+		pat := g.pick("$", "a", "a.b", "*", "**", "a[b = 1]", "$$", "$v", "$v.a", "$w", "a[0]", "**[k = 1]", "c", "$$.a")
+		upd := g.pick(`{"z": 1}`, `{"a": 2}`, `{"b": {"q": 1}}`, `{"n": $count($keys($))}`, `{"k": k + 1}`, `{"z": $$.b}`, "5", `"x"`, "nothing", `{}`, `[{"z": 1}]`)
+		del := g.pick("", "", `, "a"`, `, ["a", "b"]`, ", 1", `, "nope"`, ", nothing", `, ["a", 1]`, `, "k"`)
+		t := "|" + pat + "|" + upd + del + "|"
+		switch g.r.Intn(8) {
+		case 0:
+			return "$map(" + g.pick("a", "$", "[$, $]", "c") + ", " + t + ")"
+		case 1:
+			return "$ ~> " + t + " ~> |" + g.pick("$", "a", "**") + "|" + g.pick(`{"y": 2}`, `{"z": 3}`) + "|"
+		case 2:
+			return "$ ~> |" + g.pick("$", "a") + `|{"c": $ ~> ` + t + "}|"
+		case 3:
+			return "(" + g.pick("a", "$", "c") + ") ~> " + t
+		case 4:
+			return "[$ ~> " + t + ", $]"
+		case 5:
+			return "($t := " + t + "; [$t($), $t(" + g.pick("a", "c", "$") + ")])"
+		case 6:
+			return "($t := " + t + `; $both := |$|{"y": 2}| ~> $t; [$both($), $t($), $ ~> $t])`
+		default:
+			return "$ ~> " + t
+		}
 	case "sort":
 		return g.pick("$", "a", "$[k >= 0]") + "^(" + g.pick("", "<", ">") + g.pick("k", "s", "a") + g.pick("", ", >s", ", <k", ", >a") + ")" + g.pick("", ".id", ".id")
 	default:
@@ -449,6 +473,7 @@ func genMain(args []string) {
 	start := fs.Int("start", 1, "first id")
 	fam := fs.String("fam", "V", "family tag")
 	nulls := fs.Bool("nulls", false, "allow JSON null in documents")
+	shared := fs.Bool("shared", false, "build documents with physically shared sub-structures and bind variables to input nodes")
 	out := fs.String("out", "", "cases file (appended)")
 	fs.Parse(args)
 	f, err := os.OpenFile(*out, os.O_APPEND|os.O_CREATE|os.O_WRONLY, 0o644)
@@ -460,9 +485,21 @@ func genMain(args []string) {
 	w := bufio.NewWriter(f)
 	defer w.Flush()
 	g := &gen{r: rand.New(rand.NewSource(*seed)), prof: *prof, nulls: *nulls}
+	if *shared {
+		g.vars = []string{"v", "w"}
+	}
 	for i := 0; i < *n; i++ {
 		var d interface{}
 		switch {
+		case *prof == "transform" && g.chance(0.6):
+			inner := map[string]interface{}{"b": float64(g.r.Intn(3)), "k": float64(g.r.Intn(2))}
+			if g.chance(0.5) {
+				inner["a"] = map[string]interface{}{"b": float64(1), "c": []interface{}{float64(1), map[string]interface{}{"k": float64(1)}}}
+			}
+			d = map[string]interface{}{"a": g.pick2(inner, []interface{}{inner, map[string]interface{}{"b": float64(1), "k": float64(1)}}), "b": "s", "c": []interface{}{map[string]interface{}{"k": float64(1)}, float64(2)}}
+			if g.nulls && g.chance(0.3) {
+				d.(map[string]interface{})["n"] = nil
+			}
 		case *prof == "sort" || (*prof == "mix" && g.chance(0.2)):
 			k := 2 + g.r.Intn(6)
 			if g.chance(0.3) {
@@ -484,7 +521,11 @@ func genMain(args []string) {
 			continue
 		}
 		src := g.program()
-		b, _ := json.Marshal(M{"id": *start + i, "fam": *fam, "src": src, "inp": pd})
+		rec := M{"id": *start + i, "fam": *fam, "src": src, "inp": pd}
+		if *shared {
+			rec["flags"] = M{"share": true, "bindinput": true}
+		}
+		b, _ := json.Marshal(rec)
 		w.Write(b)
 		w.WriteByte('\n')
 	}
